@@ -143,6 +143,9 @@ class SampleImage(Module):
                 raise ValueError(
                     f"{type(self).__name__} 'input', 'data', and/or 'mask' is required"
                 )
+            if data is not None:
+                source = {"data": data}
+                shape = data.shape
         else:
             raise TypeError(
                 f"{type(self).__name__}() 'input' must be Tensor or Mapping[str, Tensor]"
